@@ -898,3 +898,178 @@ Section Main.
     - destruct (items_visible on f Xs _ I) as (vs & S & _ & F2). exists al, vs. split; [apply strips_sgr_strip, S|exact F2].
   Qed.
 End Main.
+
+(* ================================================================ F. the tag-free table is the special case *)
+Definition rows_nolt (rows : list (list str)) : Prop := Forall (Forall no_lt) rows.
+Lemma wrap_cell_nolt w cu cell len : no_lt cell ->
+  wrap_cell has_lt w cu cell len = wrap_cell (fun _ => false) w cu cell len /\
+  forall c' l' wr cu', wrap_cell has_lt w cu cell len = Ok (c', l', wr, cu') -> no_lt c'.
+Proof.
+  intros Hl. unfold wrap_cell. pose proof (proj2 (has_lt_false cell) Hl) as E. rewrite E. split; [reflexivity|].
+  intros c' l' wr cu'. destruct (w <? len); [|intros H; injection H as <- _ _ _; exact Hl].
+  destruct (wrap cell w) as [ls|e] eqn:W; cbn [bind]; [|discriminate]. intros H; injection H as <- _ _ _.
+  apply (wrap_chars _ cell w ls space_not_lt Hl W).
+Qed.
+Lemma nth_nolt col row : Forall no_lt row -> no_lt (nth col row []).
+Proof. intros H. revert col. induction H as [|c r Hc _ IH]; intros [|col]; cbn [nth]; auto; constructor. Qed.
+Lemma wrap_col_nolt col w : forall rows lens wr cu, rows_nolt rows ->
+  wrap_col has_lt col w rows lens wr cu = wrap_col (fun _ => false) col w rows lens wr cu /\
+  forall rs ls wr' cu', wrap_col has_lt col w rows lens wr cu = Ok (rs, ls, wr', cu') -> rows_nolt rs.
+Proof.
+  induction rows as [|row rows IH]; intros lens wr cu HG; cbn [wrap_col].
+  - split; [reflexivity|]. intros rs ls wr' cu' H. injection H as <- _ _ _. constructor.
+  - destruct lens as [|ln lens]; [split; [reflexivity|intros rs ls wr' cu' H; injection H as <- _ _ _; constructor]|].
+    apply Forall_cons_iff in HG as [Hrow Hrows].
+    destruct (wrap_cell_nolt w cu (nth col row []) (nth col ln 0) (nth_nolt col row Hrow)) as [E1 N1]. rewrite <- E1.
+    destruct (wrap_cell has_lt w cu (nth col row []) (nth col ln 0)) as [[[[c' l'] wrapped] cu1]|k] eqn:WC; cbn [bind]; [|split; [reflexivity|discriminate]].
+    destruct (IH lens (wr || wrapped) cu1 Hrows) as [E2 N2]. rewrite <- E2.
+    destruct (wrap_col has_lt col w rows lens (wr || wrapped) cu1) as [[[[rs1 ls1] wr1] cu2]|k] eqn:WR; cbn [bind]; [|split; [reflexivity|discriminate]].
+    split; [reflexivity|]. intros rs ls wr' cu' H. injection H as <- _ _ _. constructor; [|eapply N2; reflexivity].
+    apply Forall_set_nth; [exact Hrow|]. eapply N1; reflexivity.
+Qed.
+Lemma fit_column_nolt col w st : rows_nolt (f_rows st) ->
+  fit_column has_lt col w st = fit_column (fun _ => false) col w st /\
+  forall st', fit_column has_lt col w st = Ok st' -> rows_nolt (f_rows st').
+Proof.
+  intros HG. unfold fit_column. destruct (wrap_col_nolt col w (f_rows st) (f_lens st) (f_wraps st) (f_cuts st) HG) as [E N]. rewrite <- E.
+  split; [reflexivity|]. intros st'.
+  destruct (wrap_col has_lt col w (f_rows st) (f_lens st) (f_wraps st) (f_cuts st)) as [[[[rs ls] wr] cu]|k]; cbn [bind]; [|discriminate].
+  intros H; injection H as <-. cbn [f_rows]. eapply N; reflexivity.
+Qed.
+Lemma distribute_nolt share av : forall long col actual rem st, rows_nolt (f_rows st) ->
+  distribute has_lt share av long col actual rem st = distribute (fun _ => false) share av long col actual rem st /\
+  forall st', distribute has_lt share av long col actual rem st = Ok st' -> rows_nolt (f_rows st').
+Proof.
+  induction long as [|[len|] r IH]; intros col actual rem st HG; cbn [distribute].
+  - split; [reflexivity|]. intros st' H; injection H as <-; exact HG.
+  - destruct (if count_some r =? 0 then Ok rem else if actual =? 0 then Err (Other 9)
+              else Ok (Z.max 1 (Z.min (share len actual av) (rem - count_some r)))) as [w|k]; cbn [bind]; [|split; [reflexivity|discriminate]].
+    destruct (fit_column_nolt col w st HG) as [E N]. rewrite <- E.
+    destruct (fit_column has_lt col w st) as [st1|k]; cbn [bind]; [|split; [reflexivity|discriminate]].
+    apply IH. apply N. reflexivity.
+  - apply IH, HG.
+Qed.
+Lemma fit_g_nolt share max_total n cells lens : Forall no_lt cells ->
+  fit_g has_lt share max_total n cells lens = fit_g (fun _ => false) share max_total n cells lens /\
+  forall st, fit_g has_lt share max_total n cells lens = Ok st -> rows_nolt (f_rows st).
+Proof.
+  intros HG. unfold fit_g. destruct (init_state_l n cells lens) as [st0|k] eqn:E0; cbn [bind]; [|split; [reflexivity|discriminate]].
+  assert (G0 : rows_nolt (f_rows st0)).
+  { unfold init_state_l in E0.
+    assert (R : f_rows st0 = map (pad_row n) (chunk (length cells) n cells)).
+    { destruct n; [destruct cells; [|discriminate]|]; injection E0 as <-; reflexivity. }
+    rewrite R. unfold rows_nolt. apply Forall_map. eapply Forall_impl; [|apply (chunk_Forall no_lt n _ _ HG)].
+    intros r Hr. unfold pad_row. apply Forall_app; split; [exact Hr|]. clear. induction (n - length r)%nat; cbn; constructor; auto. constructor. }
+  destruct (zsum (f_cols st0) <=? max_total); [split; [reflexivity|intros st H; injection H as <-; exact G0]|].
+  destruct n; [split; [reflexivity|discriminate]|].
+  destruct (short_loop (S (S n)) (Z.of_nat (S n)) (map Some (f_cols st0)) max_total) as [[av long]|]; [|split; [reflexivity|discriminate]].
+  apply distribute_nolt, G0.
+Qed.
+Lemma measure_nolt f cs : Forall no_lt cs -> measure f cs = Ok (f, map zlen cs).
+Proof.
+  induction 1 as [|c cs Hc _ IH]; [reflexivity|]. cbn [measure map]. rewrite (remove_format_no_lt f c Hc). cbn [bind fst snd]. now rewrite IH.
+Qed.
+
+Section TagFree.
+  Variables (on : bool) (f : formatter).
+  Definition nolt_style (s : tstyle) : Prop :=
+    let b := t_border s in
+    no_lt (t_hpre s) /\ no_lt (t_hsuf s) /\ no_lt (t_cpre s) /\ no_lt (t_csuf s) /\ no_lt (t_pad s) /\
+    Forall no_lt [b_ht b; b_hc b; b_hb b; b_vl b; b_vc b; b_vr b; b_tl b; b_tr b; b_bl b; b_br b; b_cc b; b_cl b; b_ct b; b_cr b; b_cb b].
+  Lemma nolt_app a b : no_lt a -> no_lt b -> no_lt (a ++ b). Proof. intros; apply Forall_app; split; assumption. Qed.
+  Lemma nolt_rep pad t : no_lt pad -> no_lt (rep pad t).
+  Proof. intros H. unfold rep. induction (Z.to_nat t); cbn [repeat concat]; [constructor|apply nolt_app; assumption]. Qed.
+  Lemma nolt_blanks k : no_lt (blanks k).
+  Proof. unfold blanks. induction (Z.to_nat k); cbn [repeat]; constructor; auto. discriminate. Qed.
+  Lemma nolt_fill pad a t p : no_lt pad -> no_lt p -> no_lt (fill pad a t p).
+  Proof. intros H1 H2. unfold fill. destruct (a =? 0); [|destruct (a =? 1)]; repeat apply nolt_app; auto using nolt_rep. Qed.
+  Lemma nolt_rstrip s : no_lt s -> no_lt (t_rstrip s).
+  Proof. intros H. destruct (rstrip_split s) as (sp & E & _). rewrite E in H. apply Forall_app in H. apply H. Qed.
+  Lemma nolt_border_body lc c r lens : no_lt lc -> no_lt c -> no_lt r -> no_lt (border_body lc c r lens).
+  Proof.
+    intros H1 H2 H3. induction lens as [|x lens IH]; cbn [border_body]; [constructor|]. destruct lens as [|y lens].
+    - apply nolt_app; [apply nolt_rep, H1|exact H3].
+    - apply nolt_app; [apply nolt_rep, H1|]. apply nolt_app; [exact H2|exact IH].
+  Qed.
+  Lemma draw_border_f_free ind lens lc l c r : no_lt lc -> no_lt l -> no_lt c -> no_lt r ->
+    draw_border_f on ind lens lc l c r f = Ok (f, draw_border ind lens lc l c r).
+  Proof.
+    intros H1 H2 H3 H4. unfold draw_border_f, draw_border.
+    assert (HL : no_lt (t_rstrip (blanks ind ++ l ++ border_body lc c r lens))).
+    { apply nolt_rstrip, nolt_app; [apply nolt_blanks|]. apply nolt_app; [exact H2|apply nolt_border_body; assumption]. }
+    destruct (t_rstrip (blanks ind ++ l ++ border_body lc c r lens)) as [|ch line]; [reflexivity|].
+    apply out_write_no_lt. apply nolt_app; [exact HL|repeat constructor; discriminate].
+  Qed.
+  Lemma row_steps_free pre suf pad vc vr i : no_lt pre -> no_lt suf -> no_lt pad -> no_lt vc -> no_lt vr ->
+    forall cells cols al, Forall (Forall no_lt) cells ->
+    run_steps (row_steps pre suf pad vc vr i cells cols al) f = Ok (f, row_line pre suf pad vc vr i cells cols al) /\
+    no_lt (row_line pre suf pad vc vr i cells cols al).
+  Proof.
+    intros H1 H2 H3 H4 H5 cells cols al H. revert cols al.
+    induction H as [|c cells Hc Hrest IH]; intros cols al; cbn [row_steps row_line]; [split; [reflexivity|constructor]|].
+    destruct cols as [|w cols]; [split; [reflexivity|constructor]|]. destruct al as [|a al]; [split; [reflexivity|constructor]|].
+    destruct (IH cols al) as [E2 N2]. cbn [run_steps]. unfold cell_f at 1.
+    assert (Hp : no_lt (nth i c [])) by (clear -Hc; revert i; induction Hc; intros [|i]; cbn [nth]; auto; constructor).
+    rewrite (remove_format_no_lt f _ Hp). cbn [bind fst snd]. rewrite E2. cbn [bind fst snd]. unfold pad_cell.
+    assert (Hsep : no_lt (match cells with [] => vr | _ => vc end)) by (destruct cells; assumption).
+    destruct (w - zlen (nth i c []) <? 0); [split; [reflexivity|exact N2]|].
+    split; [now rewrite <- !app_assoc|]. repeat apply nolt_app; auto using nolt_fill.
+  Qed.
+  Lemma draw_row_f_free b pre suf pad ind row cols al : no_lt pre -> no_lt suf -> no_lt pad ->
+    no_lt (b_vl b) -> no_lt (b_vc b) -> no_lt (b_vr b) -> Forall no_lt row ->
+    draw_row_f on b pre suf pad ind row cols al f = Ok (f, draw_row b pre suf pad ind row cols al).
+  Proof.
+    intros H1 H2 H3 H4 H5 H6 HG. unfold draw_row_f, draw_row. cbv zeta.
+    assert (HC : Forall (Forall no_lt) (map (split_on 10%N) row)).
+    { apply Forall_map. eapply Forall_impl; [|exact HG]. intros c Hc. apply split_P, Hc. }
+    generalize (seq 0 (fold_right Nat.max O (map (@length str) (map (split_on 10%N) row)))). intros l.
+    induction l as [|i l IH]; [reflexivity|]. cbn [map flat_map]. apply steps_cons; [|exact IH].
+    unfold line_f. destruct (row_steps_free pre suf pad (b_vc b) (b_vr b) i H1 H2 H3 H5 H6 _ cols al HC) as [E N]. rewrite E. cbn [bind fst snd].
+    apply out_write_no_lt. apply nolt_app; [|repeat constructor; discriminate].
+    apply nolt_rstrip, nolt_app; [apply nolt_blanks|]. apply nolt_app; assumption.
+  Qed.
+  Lemma draw_table_f_free s header ind st al : nolt_style s -> rows_nolt (f_rows st) ->
+    draw_table_f on s header ind st al f = Ok (f, draw_table s header ind st al).
+  Proof.
+    intros (P1 & P2 & P3 & P4 & P5 & PB) HG. unfold draw_table_f, draw_table. cbv zeta.
+    repeat (apply Forall_cons_iff in PB as [? PB]).
+    assert (Hhd : Forall no_lt (hd [] (f_rows st))) by (destruct HG; [constructor|assumption]).
+    assert (Htl : rows_nolt (tl (f_rows st))) by (destruct HG; [constructor|assumption]).
+    cbn [app]. apply steps_cons; [apply draw_border_f_free; assumption|].
+    assert (HB : rows_nolt (match header with [] => f_rows st | _ => tl (f_rows st) end)) by (destruct header; assumption).
+    assert (Hbody : run_steps (map (fun row => draw_row_f on (t_border s) (t_cpre s) (t_csuf s) (t_pad s) ind row (f_cols st) al)
+                                   (match header with [] => f_rows st | _ => tl (f_rows st) end) ++
+                               [draw_border_f on ind (map (fun l => l + excess s) (f_cols st)) (b_hb (t_border s)) (b_bl (t_border s)) (b_cb (t_border s)) (b_br (t_border s))]) f
+                    = Ok (f, flat_map (fun row => draw_row (t_border s) (t_cpre s) (t_csuf s) (t_pad s) ind row (f_cols st) al)
+                                      (match header with [] => f_rows st | _ => tl (f_rows st) end) ++
+                             draw_border ind (map (fun l => l + excess s) (f_cols st)) (b_hb (t_border s)) (b_bl (t_border s)) (b_cb (t_border s)) (b_br (t_border s)))).
+    { induction HB as [|row body Hrow _ IH]; cbn [map flat_map app].
+      - rewrite <- (app_nil_r (draw_border _ _ _ _ _ _)). apply steps_cons; [apply draw_border_f_free; assumption|reflexivity].
+      - rewrite <- app_assoc. apply steps_cons; [apply draw_row_f_free; assumption|exact IH]. }
+    destruct header as [|h hs]; cbn [app]; [exact Hbody|].
+    rewrite <- app_assoc. apply steps_cons; [apply draw_row_f_free; assumption|].
+    apply steps_cons; [apply draw_border_f_free; assumption|exact Hbody].
+  Qed.
+
+  (* on a table whose cells and style hold no '<' the formatter plays no part: render_table_f is render_table *)
+  Theorem render_f_tag_free share s n header rows W ind : nolt_style s -> Forall no_lt (header ++ concat rows) ->
+    render_table_f share on f s n header rows W ind = render_table share s n header rows W ind.
+  Proof.
+    intros Hs HC. unfold render_table_f, render_table. destruct rows as [|r0 rows]; [reflexivity|].
+    set (cs := map t_rstrip (header ++ concat (r0 :: rows))).
+    assert (HN : Forall no_lt cs).
+    { unfold cs. apply Forall_map. eapply Forall_impl; [|exact HC]. intros c Hc. apply nolt_rstrip, Hc. }
+    unfold fit_f, render_pure. fold cs.
+    assert (E : (match n, cs with
+                 | O, _ :: _ => Err (Other 3)
+                 | _, _ => do m <- measure f cs; do st <- fit_g has_lt share (available_width s W ind (Z.of_nat n)) n cs (snd m); Ok (fst m, st)
+                 end) = do st <- fit_g (fun _ => false) share (available_width s W ind (Z.of_nat n)) n cs (map zlen cs); Ok (f, st)).
+    { rewrite (measure_nolt f cs HN). cbn [bind fst snd]. rewrite (proj1 (fit_g_nolt share _ n cs (map zlen cs) HN)).
+      destruct n; [|reflexivity]. destruct cs; [reflexivity|]. unfold fit_g, init_state_l. reflexivity. }
+    rewrite E. clear E.
+    destruct (fit_g (fun _ => false) share (available_width s W ind (Z.of_nat n)) n cs (map zlen cs)) as [st|k] eqn:F; cbn [bind fst snd]; [|reflexivity].
+    destruct (alignments s (length (f_cols st))) as [al|k]; cbn [bind]; [|reflexivity].
+    rewrite <- (proj1 (fit_g_nolt share _ n cs (map zlen cs) HN)) in F.
+    rewrite (draw_table_f_free s header ind st al Hs (proj2 (fit_g_nolt share _ n cs (map zlen cs) HN) st F)). reflexivity.
+  Qed.
+End TagFree.
